@@ -19,6 +19,8 @@
               ifirst = true: removeMappingKeys deletes the index entry first and the record last (the code's order: a failure in
                              between leaves the record, so a retry finds it and finishes); ifirst = false: record first —
                              a failure in between leaves an index entry nobody can ever remove.
+              estop = true : in lookupMapping a failed repository read (storage error) ends the lookup with that error; estop = false:
+                             it falls through to the legacy registry / cloud control like "not found".
    `own` and `log` are ghost fields (never read by the step function's decisions).
    Definitions only. *)
 From TX Require Export Base.Threads.
@@ -236,6 +238,7 @@ Section D.
   Variable atomic_incr : bool.
   Variable cfix : bool.                         (* the counter key is created without a deadline before Incr *)
   Variable ifirst : bool.                       (* removeMappingKeys deletes the index entry BEFORE the record (the code's order) *)
+  Variable estop : bool.                        (* lookupMapping: a repository error other than MAPPING_NOT_FOUND ends the lookup (the code) *)
   Variables reg cloud : name -> option pmap.    (* DomainRegistry / CloudControl contents (static environment) *)
 
   (* status checks shared by stages 2 and 3 of lookupMapping *)
@@ -326,7 +329,7 @@ Section D.
                  end
         | OLookup h now :: _ =>
             let n := extractDomain h in
-            if f then (finish t fs (RErr EStorage), ANone)
+            if f then (finish t fs (if estop then RErr EStorage else fallback h n now), ANone)
             else match idx s n with
                  | None => (finish t fs (fallback h n now), ANone)
                  | Some i => (goto t fs (PCLRec h n i now), ANone)
@@ -394,7 +397,7 @@ Section D.
         else (finish t fs RUpdated,
               AWrite i {| r_name := n; r_client := cl t; r_target := tgt; r_status := st; r_exp := exp |})
     | PCLRec h n i now =>
-        if f then (finish t fs (RErr EStorage), ANone)
+        if f then (finish t fs (if estop then RErr EStorage else fallback h n now), ANone)
         else match recs s i with
              | None => (finish t fs (fallback h n now), ANone)                  (* MAPPING_NOT_FOUND: next stages *)
              | Some m =>
